@@ -344,8 +344,31 @@ func (r *layoutRun) step(rng *rand.Rand) {
 		switch k := rng.Intn(12); {
 		case k == 10 && len(r.kids) > 0: // a child's content (preferred size) changes: it tells its watchers, the next Draw lays out again
 			c := r.kids[rng.Intn(len(r.kids))]
-			if c.nest != nil {
-				r.observe("Draw")
+			if c.nest != nil { // the nested layout loses or gains a leaf: its own preferred size follows, and the outer layout with it
+				if len(c.sub) > 1 && rng.Intn(3) != 0 {
+					j := rng.Intn(len(c.sub))
+					if rng.Intn(2) == 0 { // the widest / tallest leaf, whose removal shrinks the cross axis
+						for i, g := range c.sub {
+							if g.pw+g.ph > c.sub[j].pw+c.sub[j].ph {
+								j = i
+							}
+						}
+					}
+					c.nest.RemoveWidget(c.sub[j])
+					c.sub = append(c.sub[:j], c.sub[j+1:]...)
+					c.subfills = append(c.subfills[:j], c.subfills[j+1:]...)
+					r.observe("NestedRemove")
+				} else if len(c.sub) < 4 {
+					g := &stubWidget{pw: rng.Intn(7), ph: rng.Intn(5), id: r.nextq}
+					r.nextq++
+					gf := []int{0, 1, 2}[rng.Intn(3)]
+					c.nest.AddWidget(g, float64(gf))
+					c.sub = append(c.sub, g)
+					c.subfills = append(c.subfills, gf)
+					r.observe("NestedAdd")
+				} else {
+					r.observe("Draw")
+				}
 				return
 			}
 			c.pw, c.ph = rng.Intn(9), rng.Intn(6)
